@@ -4,6 +4,8 @@
 use vstd::prelude::*;
 verus! {
 global size_of usize == 8;
+//@extract consts src/blockchain/parser/index.rs
+//@end
 
 #[allow(unused_macros)] macro_rules! info { ($($t:tt)*) => { () } }
 
@@ -68,10 +70,6 @@ impl DBIterator {
 }
 
 // ---- the repository's code ------------------------------------------------------------------------
-//@extract type src/blockchain/parser/index.rs :: const BLOCK_VALID_CHAIN
-//@end
-//@extract type src/blockchain/parser/index.rs :: const BLOCK_HAVE_DATA
-//@end
 
 //@extract type src/blockchain/parser/index.rs :: struct BlockIndexRecord
 //@end
